@@ -56,6 +56,8 @@ def gen_case(seed, n, nrounds=3):
                 ops.append(r.choice(["store", "store", "store", "get", "purge"]))
             if ri == 0:
                 ops[0] = "store"
+            elif r.random() < 0.3:
+                ops = ["get", "store"]      # read the rebuilt entry, then replace it
         rounds.append(ops)
     c["rounds"] = rounds[:nrounds]
     return c
@@ -322,7 +324,7 @@ def run(a, res):
         for c in cases:
             table[path_of(c)] = {"case": c, "nver": 0, "lens": set(), "events": []}
         try:
-            sq.start()
+            sq.start(timeout=150)
             starts = 1
             if not wait_rebuilt(sq, starts):
                 res.inconclusive.append(f"[{name}] initial (empty) rebuild did not finish")
@@ -339,7 +341,7 @@ def run(a, res):
                     res.count("unclean_stop:" + name)
                     res.note(f"[{name}] stop was not clean: rc={rc}")
                 slog.poll()
-                sq.start(init=False)
+                sq.start(init=False, timeout=150)
                 starts += 1
                 res.count("restarts")
                 if not wait_rebuilt(sq, starts):
